@@ -103,9 +103,12 @@ REQUIRED_THEOREMS["C14"] = ["C14_csv", "C14_geff", "C14_geff_loaded", "C14_geff_
                             # R5A: the table of every state an admissible editing session reaches is well-formed
                             "C14_export_wf_of_inv", "C14_export_faithful", "C14_posSrc_reach", "C14_after_session_csv",
                             "C14_after_session_geff", "C14_after_session_internal", "C14_after_session_pos",
-                            "C14_export_needs_posSrc", "C14_counterexample_position_switched_off"]
+                            "C14_export_needs_posSrc", "C14_counterexample_position_switched_off",
+                            # R6H: the display-name CSV layout and its re-import
+                            "C14_csv_display", "C14_csv_display_names", "C14_csv_display_layout",
+                            "C14_csv_display_needs_distinct_names", "C14_csv_display_needs_distinct_targets"]
 REQUIRED_THEOREMS["C15"] = ["C15_closure", "C15_closure_files", "C15_parent_closed", "C15_edges", "C15_edges_csv", "C15_seg", "C15_seg_csv",
-                            "C15_after_session", "C15_after_session_csv", "C15_after_session_seg"]
+                            "C15_after_session", "C15_after_session_csv", "C15_after_session_seg", "C15_csv_display_subset"]
 REQUIRED_THEOREMS["C16"] = ["C16_readonly", "C16_readonly_eq", "C16_counterexample_unfixed", "C16_repair_same_output"]
 _EXPORT_TB = ["pandas / zarr / json / numpy / tifffile file I/O are carriers of the opaque value tokens (files written by the real exporters are read back with csv/zarr/json-level readers and compared with the model's encode)",
               "networkx ancestors / subgraph and the geff write / construct path are trusted library code"]
